@@ -256,6 +256,19 @@ func cmdSelftest(args []string) int {
 		}
 	}
 
+	// 5c. ONCE-RESULT-LOST
+	if fns, err := ssaSnippet(selftestOnce); err != nil {
+		check("ssa snippet once", false, "%v", err)
+	} else {
+		for name, want := range map[string]int{"lost": 1, "kept": 0, "localOnce": 0} {
+			got := 0
+			for _, g := range allSSAFuncs(fns[name]) {
+				got += len(onceResultLost(g))
+			}
+			check("onceResultLost/"+name, got == want, "%d Once.Do results lost (want %d)", got, want)
+		}
+	}
+
 	// 6. every rule table entry that names a function has the documented key shape
 	var badKeys []string
 	for k := range c14NameFilterAllowed {
@@ -367,7 +380,7 @@ func ssaSnippet(src string) (map[string]*ssa.Function, error) {
 		return nil, err
 	}
 	pkg := types.NewPackage("snippet", "snippet")
-	spkg, _, err := ssautil.BuildPackage(&types.Config{}, fset, pkg, []*ast.File{f}, ssa.SanityCheckFunctions)
+	spkg, _, err := ssautil.BuildPackage(&types.Config{Importer: importer.ForCompiler(fset, "source", nil)}, fset, pkg, []*ast.File{f}, ssa.SanityCheckFunctions)
 	if err != nil {
 		return nil, err
 	}
@@ -379,3 +392,32 @@ func ssaSnippet(src string) (map[string]*ssa.Function, error) {
 	}
 	return out, nil
 }
+
+const selftestOnce = `package snippet
+
+import "sync"
+
+func lost(f func() error) func() error {
+	var once sync.Once
+	return func() (err error) {
+		once.Do(func() { err = f() })
+		return err
+	}
+}
+
+func kept(f func() error) func() error {
+	var once sync.Once
+	var err error
+	return func() error {
+		once.Do(func() { err = f() })
+		return err
+	}
+}
+
+func localOnce(f func() error) error {
+	var once sync.Once
+	var err error
+	once.Do(func() { err = f() })
+	return err
+}
+`
